@@ -57,6 +57,8 @@ def cases(tier, seed):
             out.append(dict(gen='stops', nk=nk, dir=direction, shape=['one_many', 'paired'][k % 2], dtype='uint8', struct='uniform_keys', n=5, sub=core.subseed('C05u', seed, k), must=True))
             k += 1
     out.append(dict(gen='threads', sub=core.subseed('C05t', seed), must=True))
+    for j, nbig in enumerate([32773, 65537] if tier == 'quick' else [32773, 65537, 100000, 32768, 40000, 70001]):
+        out.append(dict(gen='bigbatch', n=nbig, sub=core.subseed('C05b', seed, j), must=j < 2))
     # walking byte: all 256 values at one position of the block (many_one) or of the key (one_many)
     positions = range(16) if tier == 'thorough' else [(seed + 5 * j) % 16 for j in range(3)]
     for nk in (16, 24, 32):
@@ -162,6 +164,8 @@ def run_case(case):
         return _history(t, case)
     if g == 'threads':
         return _threads(t, case)
+    if g == 'bigbatch':
+        return _bigbatch(t, case)
     rng = np.random.default_rng(case['sub'])
     blocks, keys = _build_inputs(case, rng)
     dt = np.dtype(case['dtype'])
@@ -221,6 +225,40 @@ def run_case(case):
     t.check(_tables_digest() == _T0, 'shared_table_modified', lambda: dict(case=case))
     sig = '|'.join(str(case.get(k)) for k in ('nk', 'dir', 'shape', 'dtype', 'struct', 'pos', 'n', 'sub'))
     return t.result(sig=sig, sample=dict(case=case, stop_points=(nr + 1) * 4, blocks=n, comparisons=t.checks))
+
+
+def _bigbatch(t, case):
+    """Tens of thousands of blocks (or keys) in one call: rows at the start, around every multiple of 2^15 / 2^16 and at the very end are
+    compared with the reference (a chunked implementation must not lose the tail)."""
+    import scared
+    rng = np.random.default_rng(case['sub'])
+    n = case['n']
+    nk = int(rng.choice([16, 24, 32]))
+    many_keys = bool(rng.random() < 0.3)
+    blocks = rng.integers(0, 256, (n, 16)).astype('uint8') if not many_keys else rng.integers(0, 256, 16).astype('uint8')
+    keys = rng.integers(0, 256, (n, nk)).astype('uint8') if many_keys else rng.integers(0, 256, nk).astype('uint8')
+    rows = sorted(set([0, 1, n - 1, n - 2, n // 2] + [m + d for m in range(32768, n, 32768) for d in (-1, 0, 1) if 0 <= m + d < n] + rng.integers(0, n, 6).tolist()))
+    for direction in ('enc', 'dec'):
+        fn = scared.aes.encrypt if direction == 'enc' else scared.aes.decrypt
+        nr = nk // 4 + 6
+        for (rnd, step) in ((None, None), (int(rng.integers(0, nr + 1)), int(rng.integers(0, 4)))):
+            got = fn(blocks, keys) if rnd is None else fn(blocks, keys, at_round=rnd, after_step=step)
+            t.count('stop_points')
+            ok = np.shape(got) == (n, 16)
+            bad = None
+            if ok:
+                for r in rows:
+                    b = (blocks[r] if not many_keys else blocks).tolist()
+                    k = (keys[r] if many_keys else keys).tolist()
+                    st, final = (R.enc_states if direction == 'enc' else R.dec_states)(b, k)
+                    exp = final if rnd is None else st[(rnd, step)]
+                    t.count('blocks')
+                    if bad is None and got[r].tolist() != exp:
+                        bad = dict(row=r, got=got[r].tolist(), expected=exp)
+            t.check(ok and bad is None, 'big_batch_row_differs', lambda: dict(n=n, nk=nk, direction=direction, at_round=rnd, after_step=step, many_keys=many_keys, shape=np.shape(got), first_bad=bad))
+    for c in ('roundtrips', 'inputs_unchanged', 'primitive_values', 'history_calls'):
+        t.count(c, 0)
+    return t.result(sig=f"bigbatch|{n}|{nk}|{many_keys}", sample=dict(case=case, rows_checked=len(rows)))
 
 
 def _threads(t, case):
